@@ -19,6 +19,19 @@ func init() {
 }
 
 func runC10(c *fw.Case) {
+	if c.Index%8 == 5 {
+		// "every persistent transfer failure": the distributor under injected bank failures
+		// (C14's configurations and failure schedules); here only a panicking BeginBlocker counts
+		runC14(c)
+		c.MapViolationKeys(func(k string) string {
+			if k == "C14/beginblock-panic" {
+				return "C10/beginblock-panic-under-transfer-failures"
+			}
+			return ""
+		})
+		c.Count("fault_injection_cases", 1)
+		return
+	}
 	r, err := newRich(c, false)
 	if err != nil {
 		if p := asPanic(err); p != nil {
